@@ -116,7 +116,7 @@ func (u *unknownAnalyzer) analyze(inf *types.Info, fnType *ast.FuncType, body *a
 			return true
 		}
 		f := core.Callee(inf, call)
-		if f == nil || !(f.Name() == "UnmarshalField" || f.Name() == "UnmarshalSetField") || len(call.Args) != 2 {
+		if f == nil || !(f.Name() == "UnmarshalField" || f.Name() == "UnmarshalSetField") || len(call.Args) < 2 {
 			return true
 		}
 		if field != nil && core.ObjOf(inf, call.Args[1]) != field {
